@@ -12,13 +12,21 @@ prop("C15", "exploration",
      "of a delivered packet (recent or up to 1200 back); a genuine packet held back on the wire while 449..514 later packets are "
      "delivered (so it lies below the 448-counter replay window) and then released from the third address; truncated copy (48..len-1 "
      "bytes, or below 8 bytes). Side 0 examines the server's view of the client address (client roams), side 1 the client's view of "
-     "the server address (server socket moves; the attacker writes to the client). Lock-step: after the deliveries of every step all "
+     "the server address (server socket moves; the attacker writes to the client). Slow application: the endpoint under test "
+     "gets a drawn receive queue length (package default, or 1, 2, 3, 5 packets: ServerConfig.MaxBufferedPacketsPerConnection / "
+     "ClientConfig.MaxBufferedPackets) and every step may make its application stop or resume calling ReadMsg; genuine, roam and "
+     "silent-move steps may be preceded by 1..6 extra genuine packets from the peer's old address, so that roams and adversarial "
+     "datagrams arrive while the queue is full and the endpoint drops payloads (labels roam-arrives-at-full-queue ~ 1 case in 4, "
+     "adversarial-datagram-arrives-at-full-queue, genuine-packet-dropped-at-full-queue). Lock-step: after the deliveries of every step all "
      "goroutines settle (synctest.Wait), the endpoint under test writes one message (WriteMsg) and the datagrams it put on the wire "
      "are read from the wire log. Oracle (harness-side model): addr := source of the last delivered datagram that was genuine, "
      "unmodified and fresh; every session datagram the endpoint emits goes to addr at that moment (redirected-by:<class>, "
-     "roaming-not-followed); exactly one datagram per write; plus the session stays usable: every genuine packet (also the first "
-     "one after a move) reaches the endpoint's application, no adversarial one does, and what the endpoint writes reaches the peer "
-     "whenever the peer is where its last genuine packet came from. Non-trivial = script with >= 1 genuine address change AND >= 1 "
+     "roaming-not-followed) - the model does not look at the queue: a genuine fresh packet moves addr whether or not its payload "
+     "could be handed to the application; exactly one datagram per write; plus the session stays usable: every genuine packet (also "
+     "the first one after a move) reaches the endpoint's application, no adversarial one does, and what the endpoint writes reaches "
+     "the peer whenever the peer is where its last genuine packet came from. The delivery clause follows a harness-side model of the "
+     "receive queue (a reader waiting in ReadMsg takes the message; else it is queued while there is room; else it is dropped and not "
+     "expected; a resuming application receives exactly what was queued, checked also after the script if it ended without a reader). Non-trivial = script with >= 1 genuine address change AND >= 1 "
      "adversarial datagram from a third address; distinct by hash of the whole script.",
      ["the AEAD, the KEM and the handshake are not attacked by search: adversarial datagrams are structural (no key knowledge)",
       "truncated copies of 8..47 bytes are excluded by construction while the pinned tree still panics on them "
@@ -31,14 +39,18 @@ prop("C15", "exploration",
       "stale = more than 448 counters behind the newest accepted packet (transport/replay.go: 'receive window of 448'); the "
       "exact window edge is C14's subject and is not probed here",
       "sockets are unconnected: the client accepts datagrams from any source address, as transport.Client does over a UDPLike",
+      "a slow application is modelled as a reader that finishes the ReadMsg call it is in (that call takes the next message) and "
+      "then stays away until it resumes; with a short queue the harness lets all goroutines settle after every genuine packet, so "
+      "that a reading application empties the queue before the next packet (otherwise overflow would depend on the scheduler)",
       "datagrams the endpoint emits that are not session packets (a handshake reply to a type-flipped copy) are outside the "
       "oracle; they are counted under the label endpoint-emitted-a-non-session-datagram"],
-     [dict(name="roaming", pkg="transport", run="^TestVerifC15Roaming$", shards=dict(quick=12, thorough=16), thorough_scale=20)],
+     [dict(name="roaming", pkg="transport", run="^TestVerifC15Roaming$", shards=dict(quick=12, thorough=16), thorough_scale=40)],
      text="Model-based search over address histories: generated interleavings of genuine packets from a moving peer with forged, "
           "bit-flipped, replayed, stale and truncated datagrams from third addresses, run in lock-step against a live session; the "
           "destination of every datagram the endpoint emits is compared with a one-variable model (source of the last genuine, "
-          "unmodified, fresh delivery). Both directions (server tracking the client, client tracking the server) and both handshake "
-          "modes. Absence is not shown; a counter-example would need an adversarial datagram shape outside the generated classes.",
+          "unmodified, fresh delivery). Both directions (server tracking the client, client tracking the server), both handshake "
+          "modes, receive queues from the package default down to one packet with an application that stops and resumes reading "
+          "(packets whose payload is dropped at a full queue still move the address). Absence is not shown; a counter-example would need an adversarial datagram shape outside the generated classes.",
      note="trusts synctest (Wait = all goroutines settled), simnet (wire log, injection with arbitrary source address, Rebind), the "
           "white-box read of the session id; cryptographic primitives are treated as ideal",
      technique="property-based model checking of address tracking (rapid scripts, simulated datagram network in lock-step, wire-log oracle)",
